@@ -10,7 +10,7 @@
 //                               then                 compile
 //                               -> "ok <ngeom> <nbody> <nq> <nmat> <nmesh>" | "error <msg>"
 //   state <qpos...>             set qpos (exactly nq values), mj_forward -> "ok" | "error <msg>"
-//   scene                       -> per geom: type body weld group matid galpha malpha contype conaffinity body_bvhadr rbound size[3] xpos[3] xmat[9]  (%.17g)
+//   scene                       -> "<ngeom> ; geom ; ... | <nbody> ; bvhadr aabb[6] xipos[3] ximat[9] ; ..."; per geom: type body weld group matid galpha malpha contype conaffinity body_bvhadr rbound size[3] xpos[3] xmat[9]  (%.17g)
 //   ray px py pz vx vy vz flg_static bodyexclude mask       mask = 6 chars 0/1 or "-" (geomgroup == NULL)
 //                               -> "R <dist> <geomid> N <dist> <n0> <n1> <n2> G <dist> | <ngeom> ; <elim> <dist_i> <n0> <n1> <n2> ; ..."
 //                                  R: mj_ray(geomid, normal=NULL)   N: mj_ray(geomid=NULL, normal)   G: mj_ray(geomid=NULL, normal=NULL)
@@ -220,6 +220,15 @@ int main(void) {
         for (int k = 0; k < 3; k++) printf(" %.17g", M->geom_size[3 * i + k]);
         for (int k = 0; k < 3; k++) printf(" %.17g", D->geom_xpos[3 * i + k]);
         for (int k = 0; k < 9; k++) printf(" %.17g", D->geom_xmat[9 * i + k]);
+      }
+      // bodies: root node of the body BVH (centre, half sizes; in the body's inertial frame) and the inertial frame pose
+      printf(" | %d", M->nbody);
+      for (int b = 0; b < M->nbody; b++) {
+        int adr = M->body_bvhadr[b];
+        printf(" ; %d", adr);
+        for (int k = 0; k < 6; k++) printf(" %.17g", adr >= 0 ? M->bvh_aabb[6 * adr + k] : 0.0);
+        for (int k = 0; k < 3; k++) printf(" %.17g", D->xipos[3 * b + k]);
+        for (int k = 0; k < 9; k++) printf(" %.17g", D->ximat[9 * b + k]);
       }
       printf("\n");
       continue;
